@@ -61,7 +61,7 @@ def _ann(c):
 def oracles():
     """the property evaluated on the implementation: name -> function(case) -> None | description of the failure"""
     pt, mass_calc, constants, chem_calc, chem_constants, chem_util, pp, Mod, Interval = E.pt_mods()
-    iso = constants.ISOTOPIC_ATOMIC_MASSES
+    iso = E.REF_ISOTOPE_MASS      # hand-typed reference masses, independent of the library's element table
 
     def numeric_mods(l):
         return all(isinstance(m.val, (int, float)) and not isinstance(m.val, bool) and m.mult == 1 for m in l)
